@@ -37,14 +37,21 @@
      "tilde"      a payload containing "~~~" is written unescaped (splits into two garbage pieces)
      "valuekey"   a call packet containing the text "value": is taken for a value packet
      "errsilent"  a callee handler that raises produces no reply
+   and two variants of the repaired implementation (seeded defects):
+     "namesniff"  a packet is taken for a call iff it contains the text "name": - an answer whose
+                  result is an object with a key called name is dropped
+     "bracecount" the undelimited tail counts as complete when its braces balance: a payload string
+                  with an unbalanced "}" and a read ending right behind it is consumed and lost
    A deviation is a generator of histories, never an oracle.                *)
 EXTENDS NodeRpcOps, Naturals, FiniteSets, TLC
 
 CONSTANTS Sizes,          \* subset of {"s", "b"}: call payload sizes
-          Pays,           \* subset of {"plain", "tilde", "valkey"}: payload content classes
+          Pays,           \* subset of {"plain", "tilde", "valkey", "wirekey", "brace"}: payload content classes
+                          \* (wirekey: objects whose keys are the wire format's own: name, value, id, meta ...;
+                          \*  brace: strings with JSON structural characters, one "}" not balanced before it)
           FwKinds,        \* subset of {"ok", "sblk", "rblk"}: what the firewall predicates say about the event
           FwConfigs,      \* subset of {"--", "S-", "-R", "SR"}: which firewalls are installed
-          Values,         \* subset of {1, 2}: result value ids (1 small, 2 larger than 4 KiB)
+          Values,         \* subset of 1..4: result value ids (1 small, 2 larger than 4 KiB, 3 wirekey object, 4 brace string)
           ErrReplies,     \* BOOLEAN: a callee handler may raise
           NoResult,       \* subset of BOOLEAN: TRUE = sends nobody waits for (node_without_result)
           HostileClasses, \* subset of {"trunc","types","missing","oversize","delim","chanlist","vforge"}
@@ -73,7 +80,9 @@ Emit(lines) == LET r == Run(P, lines, bad) IN P' = r[1] /\ bad' = r[2] /\ out' =
 H(op, s1, s2, s3, n1, n2) == <<op, s1, s2, s3, n1, n2>>
 
 Pkt(kind, id, n, w, v, err, key, host) ==
-  [kind |-> kind, id |-> id, n |-> n, w |-> w, v |-> v, err |-> err, key |-> key, host |-> host]
+  [kind |-> kind, id |-> id, n |-> n, w |-> w, v |-> v, err |-> err, key |-> key, host |-> host, trap |-> 0]
+(* the interior cell boundary 1 of a "brace" payload is the byte right behind the unbalanced "}" *)
+Trapped(p) == [p EXCEPT !.trap = 1]
 Small(kind, id, v, err, key, host) == Pkt(kind, id, 2, 1, v, err, key, host)
 Big(kind, id, v, err, key, host)   == Pkt(kind, id, 3, 4, v, err, key, host)
 Sized(size, kind, id, v, err, key, host) ==
@@ -106,12 +115,16 @@ Full(d) == Fit(chan[d], rpos[d], SLen(chan[d]), BufW)
    processed iff its payload is a piece of its own: it starts where the buffer
    starts or right after a delimiter that is wholly in the buffer, and it is
    followed by its whole delimiter or ends exactly where the buffer ends      *)
+(* does the whole payload, still without its delimiter, pass the receiver's completeness test?
+   (brace counting is wrong both ways: the payload with the extra "}" never balances) *)
+LooksComplete(p) == ~("bracecount" \in Dev /\ p.trap > 0)
+
 Proc(s, i, from, to) ==
   LET st == PStart(s, i)
       en == PEnd(s, i)
   IN /\ from <= st
      /\ (from = st \/ (i > 1 /\ from <= st - 3))
-     /\ (to = en \/ to >= en + 3)
+     /\ ((to = en /\ LooksComplete(s[i])) \/ to >= en + 3)
 
 RECURSIVE ProcFrom(_, _, _, _)
 ProcFrom(s, i, from, to) ==
@@ -125,7 +138,10 @@ NewBStart(s, from, to) ==
       ts   == IF ends = {} THEN from ELSE SetMax(ends)
   IN IF "discard" \in Dev THEN to              \* pinned: whatever cannot be decoded now is dropped
      ELSE IF ts = to THEN to
-     ELSE IF \E i \in 1..Len(s) : PStart(s, i) = ts /\ PEnd(s, i) = to THEN to   \* complete tail: processed
+     ELSE IF \E i \in 1..Len(s) : PStart(s, i) = ts /\ PEnd(s, i) = to /\ LooksComplete(s[i]) THEN to   \* complete tail: processed
+     ELSE IF "bracecount" \in Dev /\ \E i \in 1..Len(s) : s[i].trap > 0 /\ PStart(s, i) = ts
+                                                           /\ PStart(s, i) + s[i].trap = to
+          THEN to    \* braces balance: taken for complete, consumed, does not parse; the rest arrives as garbage
      ELSE ts                                                                     \* incomplete tail: kept
 
 -----------------------------------------------------------------------------
@@ -151,7 +167,8 @@ Send(size, pay, fwk, nr) ==
          rok == RecvOK(fwk)
          ev  == [fwk |-> fwk, sok |-> sok, rok |-> rok, ex |-> 0, running |-> FALSE, waiting |-> sok /\ ~nr]
          pk  == IF pay = "tilde" /\ "tilde" \in Dev THEN SplitJunk(size, FALSE)
-                ELSE IF pay = "valkey" /\ "valuekey" \in Dev THEN <<Sized(size, "junk", 0, 0, FALSE, "", FALSE)>>
+                ELSE IF pay \in {"valkey", "wirekey"} /\ "valuekey" \in Dev THEN <<Sized(size, "junk", 0, 0, FALSE, "", FALSE)>>
+                ELSE IF pay = "brace" THEN <<Trapped(Sized(size, "call", sid, 0, FALSE, "", FALSE))>>
                 ELSE <<Sized(size, "call", sid, 0, FALSE, "", FALSE)>>
          sl  == Line("send", sid, sid, IF sok THEN 1 ELSE 0, IF rok THEN 1 ELSE 0, IF nr THEN "nr" ELSE "")
      IN /\ evs' = Append(evs, ev)
@@ -191,8 +208,10 @@ Reply(id, v, err) ==
   /\ LET rl == Line("release", id, IF err THEN 0 ELSE v, IF err THEN 1 ELSE 0, 0, "")
      IN IF err /\ "errsilent" \in Dev
         THEN /\ Emit(<<rl>>) /\ UNCHANGED chan
-        ELSE /\ chan' = [chan EXCEPT ![1] = Append(@, Sized(IF ~err /\ v = 2 THEN "b" ELSE "s", "reply", id,
-                                                              IF err THEN 0 ELSE v, err, "", FALSE))]
+        ELSE /\ LET pk == Sized(IF ~err /\ v = 2 THEN "b" ELSE "s",
+                                IF ~err /\ v = 3 /\ "namesniff" \in Dev THEN "junk" ELSE "reply",   \* taken for a call, KeyError, dropped
+                                id, IF err THEN 0 ELSE v, err, "", FALSE)
+                IN chan' = [chan EXCEPT ![1] = Append(@, IF ~err /\ v = 4 THEN Trapped(pk) ELSE pk)]
              /\ Emit(<<rl, Line("wr", 1, 0, 0, 0, "")>>)
   /\ hist' = Append(hist, H("P", IF err THEN "err" ELSE "ok", "", "", id, v))
   /\ UNCHANGED <<fw, rpos, bstart, pend, ncuts, nhost, alive>>
@@ -207,7 +226,9 @@ HostilePkts(cls, key) ==
     [] cls = "delim"    -> SplitJunk("s", TRUE)
     [] cls = "chanlist" -> <<Small("hchan", 0, 0, FALSE, "", TRUE)>>
     [] cls = "vforge"   -> <<Small("reply", FirstSent, -1, FALSE, "", TRUE)>>
-    [] cls = "vmeta"    -> <<Small("hval", FirstSent, -1, FALSE, key, TRUE)>>
+    [] cls = "vmeta"    -> IF key = "name" /\ "namesniff" \in Dev
+                           THEN <<Small("junk", 0, 0, FALSE, "", TRUE)>>   \* contains the text "name": - taken for a call
+                           ELSE <<Small("hval", FirstSent, -1, FALSE, key, TRUE)>>
     [] cls = "meta"     -> IF key = "value" /\ "valuekey" \in Dev
                            THEN <<Small("junk", 0, 0, FALSE, "", TRUE)>>   \* contains the text "value": - taken for a value packet
                            ELSE <<Small("hcall", 0, 0, FALSE, key, TRUE)>>
